@@ -28,6 +28,7 @@ pub mod cmd_bus;
 pub mod cmd_alu;
 pub mod cmd_decode;
 pub mod cmd_load;
+pub mod cmd_debug;
 
 fn main() {
   let args: Vec<String> = std::env::args().collect();
@@ -51,6 +52,7 @@ fn main() {
     "blocks" => cmd_instr::blocks(&args[2..]),
     "cache-pressure" => cmd_machine::cache_pressure(&args[2..]),
     "load" => cmd_load::run(&args[2..]),
+    "debug" => cmd_debug::run(&args[2..]),
     "version" => println!("gbv jit={}", cfg!(feature = "jit")),
     _ => { eprintln!("usage: gbv <command> ..."); std::process::exit(2); }
   }
